@@ -63,7 +63,25 @@ fn affine_case(m: usize, n: usize, pat: usize, dev: Option<(usize, usize)>, acc:
             q[n - 1] = -delta * 0.5;
             pts.push(q);
         }
-        for p in pts {
+        // points whose coordinates do not survive "x + delta - delta" (tiny coordinates are absorbed, coordinates just below a
+        // power of two cross the binade): restored means the ORIGINAL value, bit for bit; entries are not exact there
+        let ndrift = if dyadic {
+            let base = pts[1 % pts.len()].clone();
+            let mut extra = vec![];
+            for (pos, val) in [(0usize, 2f64.powi(-60)), (n - 1, 4.0 - 2f64.powi(-51)), (n / 2, -2f64.powi(-70))] {
+                let mut q = base.clone();
+                q[pos] = val;
+                extra.push(q);
+            }
+            let k = extra.len();
+            pts.extend(extra);
+            k
+        } else {
+            0
+        };
+        let first_drift = pts.len() - ndrift;
+        for (pi, p) in pts.into_iter().enumerate() {
+            let drift_point = pi >= first_drift;
             acc.hit("jacobian calls");
             let log: RefCell<Vec<Vec<f64>>> = RefCell::new(vec![]);
             let f = |x: Vec64| -> Vec64 {
@@ -75,7 +93,10 @@ fn affine_case(m: usize, n: usize, pat: usize, dev: Option<(usize, usize)>, acc:
             let fmax = (0..m).map(|i| c[i].abs() + (0..n).map(|j| (a[i][j] * p[j]).abs()).sum::<f64>()).fold(1.0, f64::max);
             for i in 0..m {
                 for j in 0..n {
-                    if dyadic {
+                    if drift_point {
+                        let tol = 8.0 * f64::EPSILON * fmax / delta + 1e-12;
+                        ensure!((jac[(i, j)] - a[i][j]).abs() <= tol, "m={} n={} delta=2^{}: J[{},{}] = {} expected {} (tol {:e}) at {:?}", m, n, delta.log2(), i, j, jac[(i, j)], a[i][j], tol, p);
+                    } else if dyadic {
                         ensure!(jac[(i, j)] == a[i][j], "m={} n={} delta=2^{}: J[{},{}] = {} expected exactly {} at {:?}", m, n, delta.log2(), i, j, jac[(i, j)], a[i][j], p);
                     } else {
                         let tol = 8.0 * f64::EPSILON * fmax / delta + 1e-12;
@@ -91,7 +112,9 @@ fn affine_case(m: usize, n: usize, pat: usize, dev: Option<(usize, usize)>, acc:
             for j in 0..n {
                 for k in 0..n {
                     let want = if k == j { p[k] + delta } else { p[k] };
-                    if dyadic || k == j {
+                    if drift_point && k != j {
+                        ensure!(lg[j + 1][k].to_bits() == p[k].to_bits(), "evaluation {}: coordinate {} is {:e} but the point has {:e} there: not restored after its own perturbation (delta = 2^{})", j + 1, k, lg[j + 1][k], p[k], delta.log2());
+                    } else if dyadic || k == j {
                         ensure!(lg[j + 1][k] == want, "evaluation {}: coordinate {} is {} expected {} (point {:?}, delta {:e})", j + 1, k, lg[j + 1][k], want, p, delta);
                     } else {
                         ensure!(mc::fl::ulps(lg[j + 1][k], want) <= 1 || (lg[j + 1][k] - want).abs() <= delta * 1e-7, "evaluation {}: coordinate {} is {} expected {} (not restored)", j + 1, k, lg[j + 1][k], want);
@@ -144,6 +167,29 @@ fn affine_case_cmplx(m: usize, n: usize, pat: usize) -> Result<(), String> {
             }
         }
     }
+    // coordinates that "z + delta - delta" does not give back: a tiny real part, a real part just below 4, an imaginary part -0.0
+    let mut pz: Vec<Cmplx> = (0..n).map(|k| Cmplx::new(COORDS[(k + 1) % 5], COORDS[(k + 3) % 5])).collect();
+    pz[0] = Cmplx::new(2f64.powi(-60), -0.0);
+    pz[n - 1] = Cmplx::new(4.0 - 2f64.powi(-51), if n > 1 { 0.25 } else { -0.0 });
+    for k in [4, 13, 26] {
+        let delta = 2f64.powi(-k);
+        let log: RefCell<Vec<Vec<Cmplx>>> = RefCell::new(vec![]);
+        let f = |x: Vector<Cmplx>| -> Vector<Cmplx> {
+            log.borrow_mut().push(x.vec.clone());
+            Vector::create((0..m).map(|i| (0..n).fold(Cmplx::new(i as f64, -1.0), |s, j| s + ci(i, j) * x[j])).collect())
+        };
+        let jac = Matrix::<Cmplx>::jacobian_cmplx(Vector::create(pz.clone()), &f, delta);
+        ensure!(jac.rows() == m && jac.cols() == n, "complex: shape {}x{}", jac.rows(), jac.cols());
+        let lg = log.borrow();
+        ensure!(lg.len() == n + 1, "complex: {} evaluations expected {}", lg.len(), n + 1);
+        for j in 0..n {
+            for c in 0..n {
+                if c != j {
+                    ensure!(lg[j + 1][c].real.to_bits() == pz[c].real.to_bits() && lg[j + 1][c].imag.to_bits() == pz[c].imag.to_bits(), "complex evaluation {}: coordinate {} is {:?} but the point has {:?} there: not restored (delta = 2^-{})", j + 1, c, lg[j + 1][c], pz[c], k);
+                }
+            }
+        }
+    }
     Ok(())
 }
 
@@ -176,7 +222,7 @@ fn smooth_case(m: usize, n: usize, acc: &mut Acc) -> Result<(), String> {
 fn main() {
     let ctx = Ctx::from_args("C18");
     ctx.level("exploration");
-    ctx.rule("E1: every shape (m,n) in 1..6 x 1..6 (m<n, m=n, m>n), affine maps x -> Mx + c with two dyadic matrices, every single-entry deviation of M and every zero column of M (a variable the map ignores), every point of {-4,-1.5,0,0.25,3}^n for n<=3 (thorough n<=5) and 5 corner/centre points above, every step 2^-4..2^-26 and 1e-8, through Mat64::jacobian and Matrix::<Cmplx>::jacobian_cmplx (plus twelve larger shapes up to 64 x 2 / 5 x 33): shape exactly m x n, entries exactly M for dyadic steps (all arithmetic exact) and within rounding for 1e-8; the closure logs its arguments: call 0 is the point, call j+1 is the point with coordinate j increased by exactly delta and all others restored; smooth maps within 10*delta*max|F''|. Non-trivial: m < n, m > n, n >= 2.");
+    ctx.rule("E1: every shape (m,n) in 1..6 x 1..6 (m<n, m=n, m>n), affine maps x -> Mx + c with two dyadic matrices, every single-entry deviation of M and every zero column of M (a variable the map ignores), every point of {-4,-1.5,0,0.25,3}^n for n<=3 (thorough n<=5) and 5 corner/centre points above, every step 2^-4..2^-26 and 1e-8, through Mat64::jacobian and Matrix::<Cmplx>::jacobian_cmplx (plus twelve larger shapes up to 64 x 2 / 5 x 33): shape exactly m x n, entries exactly M for dyadic steps (all arithmetic exact) and within rounding for 1e-8; the closure logs its arguments: call 0 is the point, call j+1 is the point with coordinate j increased by exactly delta and all others restored - bit for bit, also for coordinates that x + delta - delta does not give back (2^-60, 4 - 2^-51, an imaginary part -0.0); smooth maps within 10*delta*max|F''|. Non-trivial: m < n, m > n, n >= 2.");
     ctx.assume("exactness for dyadic data relies on every product and sum fitting in 53 bits, which holds for the chosen alphabets");
     ctx.threshold("smooth_jacobian_error_over_tolerance", 1.0);
     ctx.require(&["wide (m < n)", "tall (m > n)", "jacobian calls", "shape with m or n above 6"]);
